@@ -349,8 +349,24 @@ def run_property(prop, tier, seed):
                 gone = set(facts_a.bodies) - set(facts_b.bodies)
                 bkeys = {i['key'] for i in ib if i['verdict'] == 'pass'}
                 explained = all(i['verdict'] in ('pass', 'anchor-lost') or (prop, i['key']) in known0 or i['key'] in bkeys
-                                or any(strip_g(h) in i['key'] for h in gone) for i in ia)
-                if clean(ia) or not clean(ib) or len(nb_) < len(na) or not explained:
+                                or any(strip_g(h) in i['key'] or (':' + strip_g(h).rsplit('::', 1)[-1]) in i['key'] for h in gone) for i in ia)
+                if os.environ.get('VERIF_DEBUG_VIEWS') and not clean(ia):
+                    log('  [views] %s only=%s max=%s: clean_b=%s na=%d nb=%d explained=%s' % (r, sorted(only)[:2] if only else None, max_sites, clean(ib), len(na), len(nb_), explained))
+                # fewer instances are tolerable only when the findings that sat in a dissolved helper demonstrably came back under
+                # their callers: the view has at least as many NEW keys as there were such findings, and keeps every other key
+                def in_gone(i):
+                    return any(strip_g(h) in i['key'] or (':' + strip_g(h).rsplit('::', 1)[-1]) in i['key'] for h in gone)
+                akeys = {i['key'] for i in na}
+                moved = [i for i in na if i['verdict'] != 'pass' and (prop, i['key']) not in known0 and in_gone(i)]
+                newkeys = {i['key'] for i in nb_} - akeys
+                kept = {i['key'] for i in na if not in_gone(i)} <= {i['key'] for i in nb_}
+                # a rule whose instances ARE functions (it finds "every function that renders an enum") loses an instance when such a
+                # function is inlined away: its module lists it in NO_INLINE_VIEW and it is never decided on a view
+                enough = (len(nb_) >= len(na) or (moved and kept)) and r not in getattr(mod, 'NO_INLINE_VIEW', ())
+                if os.environ.get('VERIF_DEBUG_VIEWS') and not clean(ia) and clean(ib):
+                    log('  [views2] moved=%s newkeys=%s kept=%s missing=%s' % ([i['key'] for i in moved], sorted(newkeys)[:3], kept,
+                                                                             sorted({i['key'] for i in na if not in_gone(i)} - {i['key'] for i in nb_})[:3]))
+                if clean(ia) or not clean(ib) or not enough or not explained:
                     merged += ia
                 else:
                     for i in ib:
